@@ -5,6 +5,7 @@ CONSTANTS
   Periods <- PeriodsB
   MaxNow = 3
   EnvOps = {"drain", "fail", "abort"}
+  Stalls = {}
   VirtualClock = TRUE
   Instant = FALSE
   UnstartedKillsInterval = TRUE
